@@ -30,15 +30,20 @@ CHECKS = {
 }
 
 CHECKS["C01"] = dict(
-    text=("Kernel-level theorems of C04 (single pass and block-wise execution equal the per-group definition for every interleaving, null "
-          "placement, kernel, dtype class) plus Lean theorems about the public pipeline's specification: neutral result of an all-null group, "
-          "count/size semantics, first/last in row order, label set = keys with a selected row. The pipeline model (factorize -> kernel -> "
-          "observed filter -> label order) is executed by the driver next to the specification and both are compared with the real "
-          "GroupBy.size/count/sum/mean/min/max/first/last on generated datasets (all key classes, 1-3 keys, nulls anywhere, all mask kinds)."),
-    note="The equality of the pipeline model with the specification is checked by execution on every case (model= vs spec=), not yet proved in Lean for the factorize/observed/sort glue; label values are abstract ordered atoms; pandas factorize/argsort trusted.",
-    technique="Lean 4 proof of the kernel contract and of the specification's properties + executable pipeline model + differential correspondence against the public API",
+    text=("Lean: modelReduce_eq_specReduce - the whole public reduction pipeline for one value column (factorization by first appearance, the kernel "
+          "under any mask kind / thread count, the observed-label filter on value and key counts, the label ordering through the argsort of the label "
+          "list) returns exactly the specification: the labels are the keys with at least one selected row, each once, ascending (sort) or in "
+          "first-appearance order, each with the per-group definition over its selected rows in row order - for every interleaving of groups, null "
+          "placement in keys and values, kernel and dtype class. It rests on C04's end-to-end kernel theorem, C02's factorization lemmas, the "
+          "commutation of every mask kind with row-wise maps (selectGen_map) and List.map_mergeSort. Further: all_null_group_neutral, "
+          "count_counts_nonnull, first_last_row_order, spec_labels_exactly_selected. The pipeline model is executed by the driver next to the "
+          "specification and both are compared with the real GroupBy.size/count/sum/mean/min/max/first/last on generated datasets (all key classes, "
+          "1-3 keys, nulls anywhere, all mask kinds)."),
+    note="Multi-key factorization (factorize_2d) is covered by C02's theorems and enters the pipeline theorem through the abstract key tuple; label values are abstract ordered atoms; pandas factorize / argsort are trusted to behave as modelled (tied by the differential run).",
+    technique="Lean 4 proof (end-to-end pipeline = specification, on top of the kernel contract) + executable pipeline model + differential correspondence against the public API",
     design="§7 C01",
 )
+
 CHECKS["C02"] = dict(
     text=("Lean theorems for every key list: first-appearance factorization satisfies label-at-code, equal-codes-iff-equal-keys, null-code-iff-null-key, "
           "labels distinct, every label observed; group positions are ascending, cover exactly the rows with a valid code and never a null-key row; the "
